@@ -1077,6 +1077,7 @@ impl Evaluator {
     pub fn apply_keyswitching_inplace(&self, encrypted: &mut Ciphertext, keyswitching_key: &KSwitchKeys) {
         assert_eq!(keyswitching_key.data().len(), 1);
         assert_eq!(encrypted.size(), 2);
+        self.check_ciphertext(encrypted);
         // due to the semantics of `switch_key_inplace_internal`, we should first get the c0 out
         // and then clear the original c0 in the encrypted.
         let target = encrypted.poly(1).to_vec();
